@@ -68,7 +68,13 @@ def gen_job(r, files):
         txt = txt[:-1] + ' append("extra_h", line_number())]'
     elif x < 0.6:
         txt = txt[:-1] + ' @hc = count_headers() print("$.csvpath.headers")]'
+    elif x < 0.7:
+        # duplicate-line bookkeeping: its variables are keyed by a fingerprint of the line
+        txt = txt[:-1] + ' @dd = count_dups()]'
     return {"text": txt.replace("@@FILE@@", name), "file": name, "shape": lang.prog_shape(prog)}
+
+
+_HASHSEED = {"n": 0}
 
 
 def run_process(jobs, cwd, agg):
@@ -76,7 +82,11 @@ def run_process(jobs, cwd, agg):
     sp = os.path.join(os.getcwd(), "jobspec.json")
     with open(sp, "w") as f:
         json.dump(spec, f)
-    p = subprocess.run([sys.executable, "-m", "vfy.jobrunner", sp], capture_output=True, text=True, timeout=300)
+    # every fresh process gets its own hash seed (the workers themselves are pinned for reproducibility): nothing a
+    # run leaves behind may depend on it
+    _HASHSEED["n"] += 1
+    envv = dict(os.environ, PYTHONHASHSEED=str(1000 + _HASHSEED["n"]))
+    p = subprocess.run([sys.executable, "-m", "vfy.jobrunner", sp], capture_output=True, text=True, timeout=300, env=envv)
     agg.count("fresh_processes")
     if p.returncode != 0:
         raise RuntimeError("jobrunner failed: " + p.stderr[-600:])
